@@ -2,6 +2,7 @@
 C13 — the classes that embed item after item: Pn, Ptuple, Pseq, Pser, Place.
 -/
 import Sc3Verif.C13.Main
+import Sc3Verif.C13.MachSlide
 namespace Sc3Verif.C13
 
 /-- What an item of a schedule denotes. -/
@@ -291,5 +292,35 @@ theorem good_place (r : Rep) (off : Int) {l : List Pat} {lens : List Nat}
     · simp [itemPL]
     · rw [List.getElem?_map]
       cases l[s + j % n]? <;> simp [itemPL, denItem]
+
+/-! ### Pswitch1, Pslide -/
+
+theorem good_switch1 {l : List Pat} {w : Pat} (hl : ∀ p ∈ l, Good p) (hw : Good w) :
+    Good (.switch1 l w) := by
+  obtain ⟨how, hcw⟩ := goodS_of_good hw
+  constructor
+  · have := obs_switch1 l (fun k p => denS k p) (fun p hp => (goodS_of_good (hl p hp)).2)
+      (fun p hp => (goodS_of_good (hl p hp)).1) (initS w) _ hcw how
+    have e : ∀ k, l.map (fun p => denS k p) = l.map (denS k) := fun _ => rfl
+    simp only [initE, denE, denSL_eq_map]
+    exact this
+  · intro k
+    show denE k (.switch1 l w) ⊑ denE (k + 1) (.switch1 l w)
+    simp only [denE, denSL_eq_map]
+    exact switch1D_mono (forall₂_map_of_mem l _ _ (fun p hp => (goodS_of_good (hl p hp)).2 k)) (hcw k)
+
+theorem good_slide {l : List Pat} {len step : Pat} (start : Int) (wrap : Bool) (r : Rep)
+    (hl : ∀ p ∈ l, Good p) (hlen : Good len) (hstep : Good step) :
+    Good (.slide l len step start wrap r) := by
+  obtain ⟨hol, hcl⟩ := goodS_of_good hlen
+  obtain ⟨hos, hcs⟩ := goodS_of_good hstep
+  constructor
+  · have := obs_slide l wrap r start (initS len) (initS step) _ _ hcl hcs hol hos (fun k p => denE k p)
+      (fun p hp => (hl p hp).2) (fun p hp => (hl p hp).1)
+    simpa [initE, denE, denEL_eq_map, denS, initS] using this
+  · intro k
+    show denE k (.slide l len step start wrap r) ⊑ denE (k + 1) (.slide l len step start wrap r)
+    simp only [denE, denEL_eq_map]
+    exact slideD_mono (forall₂_map_of_mem l _ _ (fun p hp => (hl p hp).2 k)) wrap r start (hcl k) (hcs k)
 
 end Sc3Verif.C13
